@@ -159,6 +159,35 @@ PROPS["C08"] = dict(
                 "conversion, round trips, verbatim literals (native reference dispatcher).",
 )
 
+PROPS["C13"] = dict(
+    modules=["common", "hdrs", "c03", "c02", "c05", "c13"],
+    contracts=["MutableHeaders.__setitem__", "MutableHeaders.__delitem__", "MutableHeaders.append", "Headers.__getitem__",
+               "Headers.__init__", "cookie.table", "Cookie._quote", "Cookie.__str__",
+               "wsgi.RedirectResponse.__init__", "asgi.RedirectResponse.__init__"],
+    no_refute=["cookie.table"],
+    refute={"quick": [2], "thorough": [1, 2, 3]},
+    native="c13",
+    level="proof",
+    trusted=["A-py-1", "A-solver", "A-pyvc"],
+    level_text="Mapping invariant CLEAN (no stored name or value contains CR, LF or NUL): __setitem__ raises ValueError and leaves the "
+               "map unchanged if key or value contains one, otherwise stores lower(key) -> value; it and __delitem__ and "
+               "append (proved against __setitem__'s contract, incl. the old+', '+value join) preserve CLEAN; update/setdefault "
+               "are the MutableMapping mixins that mutate only through these. Cookies: the real escape table is checked for all "
+               "256 code points (exhaustive, hence complete); Cookie._quote returns either the value unchanged (all characters "
+               "legal) or the quoted homomorphic image, in both cases free of CR, LF, NUL, ';' and ','; Cookie.__str__ (all 216 "
+               "attribute combinations) is free of CR/LF/NUL, starts with quote(name)=quote(value), that pair contains no ';' "
+               "and is followed by '; ' - so name/value cannot introduce an attribute or a header. Redirect: the target is "
+               "escaped and stored through __setitem__, which can then never reject it.",
+    level_note="Trusted: str.lower introduces no CR/LF/NUL (A-lower); collections.abc mixins mutate only via __setitem__/"
+               "__delitem__ (A-abc-1); re fullmatch (A-re-2); str.translate is the character-wise homomorphism of the table "
+               "(A-translate); urllib.parse.quote emits only unreserved/safe/%HH (A-quote-1); strftime output (A-time-1); "
+               "cookie attributes path/domain/samesite are required clean (not sources of C13); list_headers' body "
+               "(map items + one set-cookie line per cookie) is covered by the bounded layer; Headers.__init__ does not "
+               "filter constructor-supplied maps (an input of the property).",
+    technique="deductive verification: class invariant of the header mapping, exhaustive finite table lemma, string-level contracts for cookie quoting, SMT (z3/cvc5)",
+    explanation="",
+)
+
 NOT_APPLICABLE = {
     "C06": "quantifies over schedules/interleavings (relay thread vs consumer vs closer, asyncio tasks vs ping timer) and is a "
            "bounded-liveness claim; contracts over a sequential, await-erased semantics cannot express an interleaving and "
